@@ -110,9 +110,11 @@ type TokObj struct {
 	Hostile  bool
 	Sealed   bool
 	SignEvents []int // op index of the signing event of each block
+	Base     []string // base symbol table issuer and readers agreed on (nil = the default one)
 }
 
 type BlobObj struct {
+	Base    []string
 	Data    []byte
 	Abs     *ref.Token
 	RootKey int
